@@ -5,25 +5,411 @@ namespace DSV.Create
 /-- every caller that has finished ended up on table `u` -/
 def AllOn (s : Sys) (u : Nat) : Prop := ∀ a v, s.pc a = .done (some v) → v = u
 
+/-! ### projections of the state updates -/
+
+@[simp] theorem setPc_pc (s : Sys) (a : Nat) (p : Pc) (x : Nat) :
+    (setPc s a p).pc x = if x = a then p else s.pc x := rfl
+@[simp] theorem setPc_files (s : Sys) (a : Nat) (p : Pc) : (setPc s a p).files = s.files := rfl
+@[simp] theorem setPc_hint (s : Sys) (a : Nat) (p : Pc) : (setPc s a p).hint = s.hint := rfl
+@[simp] theorem setPc_inits (s : Sys) (a : Nat) (p : Pc) : (setPc s a p).inits = s.inits := rfl
+@[simp] theorem setPc_holder (s : Sys) (a : Nat) (p : Pc) : (setPc s a p).holder = s.holder := rfl
+@[simp] theorem setPc_nextFid (s : Sys) (a : Nat) (p : Pc) : (setPc s a p).nextFid = s.nextFid := rfl
+
+@[simp] theorem releaseLock_pc (s : Sys) (a : Nat) : (releaseLock s a).pc = s.pc := by
+  unfold releaseLock; split <;> rfl
+@[simp] theorem releaseLock_files (s : Sys) (a : Nat) : (releaseLock s a).files = s.files := by
+  unfold releaseLock; split <;> rfl
+@[simp] theorem releaseLock_hint (s : Sys) (a : Nat) : (releaseLock s a).hint = s.hint := by
+  unfold releaseLock; split <;> rfl
+@[simp] theorem releaseLock_inits (s : Sys) (a : Nat) : (releaseLock s a).inits = s.inits := by
+  unfold releaseLock; split <;> rfl
+theorem releaseLock_holder_ne (s : Sys) (a b : Nat) (h : b ≠ a) (hb : s.holder = some b) :
+    (releaseLock s a).holder = some b := by
+  unfold releaseLock
+  split
+  · rename_i h1; rw [hb] at h1; exact absurd (Option.some.inj h1) h
+  · exact hb
+
+theorem resolve_congr (s1 s2 : Sys) (hf : s1.files = s2.files) (hh : s1.hint = s2.hint) :
+    resolve s1 = resolve s2 := by
+  unfold resolve lookup; rw [hf, hh]
+
+theorem resolve_nil (s : Sys) (hf : s.files = []) (hh : s.hint = none) : resolve s = none := by
+  unfold resolve lookup; rw [hf, hh]; rfl
+
+theorem resolve_single_none (s : Sys) (f : MFile) (hf : s.files = [f]) (hh : s.hint = none) :
+    resolve s = some f := by
+  unfold resolve lookup; rw [hf, hh]; rfl
+
+theorem resolve_single_some (s : Sys) (f : MFile) (hf : s.files = [f]) (hh : s.hint = some f.fid) :
+    resolve s = some f := by
+  unfold resolve lookup; rw [hf, hh]; simp
+
+/-! ### schedules stay inside `Reach` -/
+
 theorem reach_run (cfg : Cfg) (files : List MFile) (hint : Option Nat) (creator : Nat → Bool) (sched : List (Nat × Act)) :
-    ∀ s s', Reach cfg files hint creator s → run cfg s sched = some s' → Reach cfg files hint creator s' := by sorry
+    ∀ s s', Reach cfg files hint creator s → run cfg s sched = some s' → Reach cfg files hint creator s' := by
+  induction sched with
+  | nil =>
+      intro s s' hr h
+      simp only [run, Option.some.injEq] at h
+      subst h; exact hr
+  | cons p rest ih =>
+      intro s s' hr h
+      obtain ⟨a, act⟩ := p
+      simp only [run] at h
+      split at h
+      · rename_i s1 h1
+        exact ih _ _ (Reach.step a act hr h1) h
+      · cases h
+
+/-! ### identity_preserved -/
+
+def IdInv (files : List MFile) (hint : Option Nat) (t : MFile) (s : Sys) : Prop :=
+  s.files = files ∧ s.hint = hint ∧ s.inits = [] ∧ ∀ a, s.pc a = .idle ∨ s.pc a = .done (some t.uuid)
+
+theorem idInv_step (cfg : Cfg) (files : List MFile) (hint : Option Nat) (creator : Nat → Bool) (t : MFile)
+    (h0 : resolve (init files hint creator) = some t) (s s' : Sys) (a : Nat) (act : Act)
+    (inv : IdInv files hint t s) (hs : step cfg s a act = some s') : IdInv files hint t s' := by
+  obtain ⟨hf, hh, hi, hp⟩ := inv
+  have hres : resolve s = some t := (resolve_congr s (init files hint creator) hf hh).trans h0
+  cases act
+  case open_ =>
+    simp only [step] at hs
+    rcases hp a with h | h
+    · rw [h, hres] at hs
+      simp only [Option.some.injEq] at hs
+      subst hs
+      refine ⟨hf, hh, hi, ?_⟩
+      intro x
+      simp only [setPc_pc]
+      split
+      · exact Or.inr rfl
+      · exact hp x
+    · rw [h] at hs; simp at hs
+  all_goals
+    simp only [step] at hs
+    rcases hp a with h | h <;> rw [h] at hs <;> simp at hs
 
 /-- an existing (resolvable) table is never re-initialised and keeps its identity, whatever the lock and backend -/
 theorem identity_preserved' (cfg : Cfg) (files : List MFile) (hint : Option Nat) (creator : Nat → Bool) (t : MFile)
     (h0 : resolve (init files hint creator) = some t) (s : Sys) (hr : Reach cfg files hint creator s) :
-    s.inits = [] ∧ resolve s = some t ∧ AllOn s t.uuid ∧ s.files = files ∧ s.hint = hint := by sorry
+    s.inits = [] ∧ resolve s = some t ∧ AllOn s t.uuid ∧ s.files = files ∧ s.hint = hint := by
+  have inv : IdInv files hint t s := by
+    induction hr with
+    | init => exact ⟨rfl, rfl, rfl, fun _ => Or.inl rfl⟩
+    | step a act _ hs ih => exact idInv_step cfg files hint creator t h0 _ _ a act ih hs
+  obtain ⟨hf, hh, hi, hp⟩ := inv
+  refine ⟨hi, (resolve_congr s (init files hint creator) hf hh).trans h0, ?_, hf, hh⟩
+  intro a v hv
+  rcases hp a with h | h
+  · rw [h] at hv; cases hv
+  · rw [h] at hv; cases hv; rfl
+
+/-! ### one_init (exclusive lock) -/
+
+def InLock : Pc → Prop
+  | .locked | .checked | .wrote _ | .flipped _ | .lost _ => True
+  | _ => False
+
+def LockInv (s : Sys) : Prop := ∀ a, InLock (s.pc a) → s.holder = some a
+
+theorem lockInv_step (cfg : Cfg) (hx : cfg.exclusive = true) (s s' : Sys) (a : Nat) (act : Act)
+    (hl : LockInv s) (hs : step cfg s a act = some s') : LockInv s' := by
+  cases act <;> simp only [step, hx, ↓reduceIte] at hs
+  all_goals repeat' (split at hs)
+  all_goals first | (cases hs; done) | skip
+  all_goals
+    cases hs
+    intro x hxl
+    by_cases hxa : x = a
+    · subst hxa
+      first
+        | (simp [InLock] at hxl; done)
+        | rfl
+        | (simp; apply hl; simp [*, InLock]; done)
+    · simp [hxa] at hxl ⊢
+      have := hl x hxl
+      first
+        | exact this
+        | (simp [*] at this; done)
+        | exact releaseLock_holder_ne s a x hxa this
+
+def Ok0 : Pc → Prop
+  | .idle | .wantInit | .locked | .checked | .done none => True
+  | _ => False
+
+def Ok1 (f : MFile) : Pc → Prop
+  | .idle | .wantInit | .locked | .done none | .lost none => True
+  | .wrote g => g = f
+  | .done (some v) => v = f.uuid
+  | _ => False
+
+def Ok2 (f : MFile) : Pc → Prop
+  | .idle | .wantInit | .locked | .done none | .lost _ => True
+  | .flipped g => g = f
+  | .done (some v) => v = f.uuid
+  | _ => False
+
+theorem ok0_ok1 (f : MFile) (p : Pc) (h : Ok0 p) (hn : ¬ InLock p) : Ok1 f p := by
+  cases p with
+  | done o => cases o <;> simp_all [Ok0, Ok1, InLock]
+  | _ => simp_all [Ok0, Ok1, InLock]
+
+theorem ok1_ok2 (f : MFile) (p : Pc) (h : Ok1 f p) (hn : ¬ InLock p) : Ok2 f p := by
+  cases p with
+  | done o => cases o <;> simp_all [Ok1, Ok2, InLock]
+  | _ => simp_all [Ok1, Ok2, InLock]
+
+theorem forall_setPc (P : Pc → Prop) (s : Sys) (a : Nat) (p : Pc) (h : P p) (hp : ∀ x, x ≠ a → P (s.pc x)) :
+    ∀ x, P ((setPc s a p).pc x) := by
+  intro x
+  simp only [setPc_pc]
+  split
+  · exact h
+  · exact hp x ‹_›
+
+theorem other_not_inLock (s : Sys) (hl : LockInv s) (a : Nat) (ha : InLock (s.pc a)) (x : Nat) (hxa : x ≠ a) :
+    ¬ InLock (s.pc x) := by
+  intro h
+  have h1 := hl x h
+  rw [hl a ha] at h1
+  exact hxa (Option.some.inj h1).symm
+
+def Phase (s : Sys) : Prop :=
+  (s.files = [] ∧ s.hint = none ∧ s.inits = [] ∧ ∀ a, Ok0 (s.pc a)) ∨
+  (∃ f, s.files = [f] ∧ s.hint = none ∧ s.inits = [] ∧ ∀ a, Ok1 f (s.pc a)) ∨
+  (∃ f w, s.files = [f] ∧ s.hint = some f.fid ∧ s.inits = [w] ∧ ∀ a, Ok2 f (s.pc a))
+
+set_option linter.unusedSimpArgs false in
+theorem phase_step (cfg : Cfg) (hx : cfg.exclusive = true) (s s' : Sys) (a : Nat) (act : Act)
+    (hl : LockInv s) (ph : Phase s) (hs : step cfg s a act = some s') : Phase s' := by
+  rcases ph with ⟨hf, hh, hi, hp⟩ | ⟨f, hf, hh, hi, hp⟩ | ⟨f, w, hf, hh, hi, hp⟩
+  · -- nothing on storage yet
+    have hres := resolve_nil s hf hh
+    have hpa := hp a
+    cases act
+    case open_ =>
+      simp only [step, hx, hres, ↓reduceIte] at hs
+      split at hs
+      all_goals first | (cases hs; done) | (simp [*, Ok0] at hpa; done) | skip
+      split at hs <;> cases hs <;>
+        exact Or.inl ⟨hf, hh, hi, forall_setPc Ok0 s a _ trivial (fun x _ => hp x)⟩
+    case acquire =>
+      simp only [step, hx, hres, ↓reduceIte] at hs
+      split at hs
+      all_goals first | (cases hs; done) | (simp [*, Ok0] at hpa; done) | skip
+      split at hs
+      · cases hs
+        exact Or.inl ⟨hf, hh, hi, forall_setPc Ok0 s a _ trivial (fun x _ => hp x)⟩
+      · cases hs
+    case check =>
+      simp only [step, hx, hres, ↓reduceIte] at hs
+      split at hs
+      all_goals first | (cases hs; done) | (simp [*, Ok0] at hpa; done) | skip
+      cases hs
+      exact Or.inl ⟨hf, hh, hi, forall_setPc Ok0 s a _ trivial (fun x _ => hp x)⟩
+    case writeV0 =>
+      simp only [step, hx, hres, ↓reduceIte] at hs
+      split at hs
+      all_goals first | (cases hs; done) | (simp [*, Ok0] at hpa; done) | skip
+      rename_i heq
+      cases hs
+      have ha : InLock (s.pc a) := by rw [heq]; trivial
+      refine Or.inr (Or.inl ⟨⟨s.nextFid, a, 0⟩, ?_, hh, hi, ?_⟩)
+      · show _ :: s.files = _
+        rw [hf]
+      · exact forall_setPc (Ok1 _) s a _ rfl
+          (fun x hxa => ok0_ok1 _ _ (hp x) (other_not_inLock s hl a ha x hxa))
+    case flip =>
+      simp only [step, hx, hres, ↓reduceIte] at hs
+      split at hs
+      all_goals first | (cases hs; done) | (simp [*, Ok0] at hpa; done) | skip
+    case release =>
+      simp only [step, hx, hres, ↓reduceIte] at hs
+      split at hs
+      all_goals first | (cases hs; done) | (simp [*, Ok0] at hpa; done) | skip
+  · -- one v0 written, pointer not yet
+    have hres := resolve_single_none s f hf hh
+    have hpa := hp a
+    cases act
+    case open_ =>
+      simp only [step, hx, hres, ↓reduceIte] at hs
+      split at hs
+      all_goals first | (cases hs; done) | (simp [*, Ok1] at hpa; done) | skip
+      cases hs
+      exact Or.inr (Or.inl ⟨f, hf, hh, hi, forall_setPc (Ok1 f) s a _ rfl (fun x _ => hp x)⟩)
+    case acquire =>
+      simp only [step, hx, hres, ↓reduceIte] at hs
+      split at hs
+      all_goals first | (cases hs; done) | (simp [*, Ok1] at hpa; done) | skip
+      split at hs
+      · cases hs
+        exact Or.inr (Or.inl ⟨f, hf, hh, hi, forall_setPc (Ok1 f) s a _ trivial (fun x _ => hp x)⟩)
+      · cases hs
+    case check =>
+      simp only [step, hx, hres, ↓reduceIte] at hs
+      split at hs
+      all_goals first | (cases hs; done) | (simp [*, Ok1] at hpa; done) | skip
+      cases hs
+      exact Or.inr (Or.inl ⟨f, hf, hh, hi, forall_setPc (Ok1 f) s a _ trivial (fun x _ => hp x)⟩)
+    case writeV0 =>
+      simp only [step, hx, hres, ↓reduceIte] at hs
+      split at hs
+      all_goals first | (cases hs; done) | (simp [*, Ok1] at hpa; done) | skip
+    case flip =>
+      simp only [step, hx, hres, ↓reduceIte] at hs
+      split at hs
+      all_goals first | (cases hs; done) | (simp [*, Ok1] at hpa; done) | skip
+      rename_i g heq
+      have ha : InLock (s.pc a) := by rw [heq]; trivial
+      have hg : g = f := by rw [heq] at hpa; exact hpa
+      subst hg
+      have key : Phase { setPc s a (.flipped g) with hint := some g.fid, inits := a :: s.inits } := by
+        refine Or.inr (Or.inr ⟨g, a, hf, rfl, ?_, ?_⟩)
+        · show a :: s.inits = _
+          rw [hi]
+        · exact forall_setPc (Ok2 g) s a _ rfl
+            (fun x hxa => ok1_ok2 _ _ (hp x) (other_not_inLock s hl a ha x hxa))
+      rw [hh] at hs
+      split at hs <;> cases hs <;> exact key
+    case release =>
+      simp only [step, hx, hres, ↓reduceIte] at hs
+      split at hs
+      all_goals first | (cases hs; done) | (simp [*, Ok1] at hpa; done) | skip
+      cases hs
+      have hres' : resolve (releaseLock s a) = some f :=
+        resolve_single_none _ f (by rw [releaseLock_files]; exact hf) (by rw [releaseLock_hint]; exact hh)
+      rw [hres']
+      refine Or.inr (Or.inl ⟨f, by rw [setPc_files, releaseLock_files]; exact hf,
+        by rw [setPc_hint, releaseLock_hint]; exact hh, by rw [setPc_inits, releaseLock_inits]; exact hi, ?_⟩)
+      exact forall_setPc (Ok1 f) _ a _ rfl (fun x _ => by rw [releaseLock_pc]; exact hp x)
+  · -- pointer set
+    have hres := resolve_single_some s f hf hh
+    have hpa := hp a
+    cases act
+    case open_ =>
+      simp only [step, hx, hres, ↓reduceIte] at hs
+      split at hs
+      all_goals first | (cases hs; done) | (simp [*, Ok2] at hpa; done) | skip
+      cases hs
+      exact Or.inr (Or.inr ⟨f, w, hf, hh, hi, forall_setPc (Ok2 f) s a _ rfl (fun x _ => hp x)⟩)
+    case acquire =>
+      simp only [step, hx, hres, ↓reduceIte] at hs
+      split at hs
+      all_goals first | (cases hs; done) | (simp [*, Ok2] at hpa; done) | skip
+      split at hs
+      · cases hs
+        exact Or.inr (Or.inr ⟨f, w, hf, hh, hi, forall_setPc (Ok2 f) s a _ trivial (fun x _ => hp x)⟩)
+      · cases hs
+    case check =>
+      simp only [step, hx, hres, ↓reduceIte] at hs
+      split at hs
+      all_goals first | (cases hs; done) | (simp [*, Ok2] at hpa; done) | skip
+      cases hs
+      exact Or.inr (Or.inr ⟨f, w, hf, hh, hi, forall_setPc (Ok2 f) s a _ trivial (fun x _ => hp x)⟩)
+    case writeV0 =>
+      simp only [step, hx, hres, ↓reduceIte] at hs
+      split at hs
+      all_goals first | (cases hs; done) | (simp [*, Ok2] at hpa; done) | skip
+    case flip =>
+      simp only [step, hx, hres, ↓reduceIte] at hs
+      split at hs
+      all_goals first | (cases hs; done) | (simp [*, Ok2] at hpa; done) | skip
+    case release =>
+      have hres' : resolve (releaseLock s a) = some f :=
+        resolve_single_some _ f (by rw [releaseLock_files]; exact hf) (by rw [releaseLock_hint]; exact hh)
+      have key : ∀ v, v = f.uuid → Phase (setPc (releaseLock s a) a (.done (some v))) := by
+        intro v hv
+        subst hv
+        refine Or.inr (Or.inr ⟨f, w, by rw [setPc_files, releaseLock_files]; exact hf,
+          by rw [setPc_hint, releaseLock_hint]; exact hh, by rw [setPc_inits, releaseLock_inits]; exact hi, ?_⟩)
+        exact forall_setPc (Ok2 f) _ a _ rfl (fun x _ => by rw [releaseLock_pc]; exact hp x)
+      simp only [step, hx, hres', ↓reduceIte] at hs
+      split at hs
+      all_goals first | (cases hs; done) | skip
+      · rename_i g heq
+        cases hs
+        rw [heq] at hpa
+        exact key _ (congrArg MFile.uuid hpa)
+      · cases hs
+        exact key _ rfl
+
+theorem exInv_reach (cfg : Cfg) (hx : cfg.exclusive = true) (creator : Nat → Bool) (s : Sys)
+    (hr : Reach cfg [] none creator s) : LockInv s ∧ Phase s := by
+  induction hr with
+  | init => exact ⟨fun a h => h.elim, Or.inl ⟨rfl, rfl, rfl, fun _ => trivial⟩⟩
+  | @step s1 s2 a act _ hs ih =>
+      exact ⟨lockInv_step cfg hx s1 s2 a act ih.1 hs, phase_step cfg hx s1 s2 a act ih.1 ih.2 hs⟩
 
 /-- from nothing, with a lock that excludes (either backend): at most one initialisation takes effect, at most one
 initial version is ever written, and every caller that finished is on that one table -/
 theorem one_init_exclusive' (cfg : Cfg) (hx : cfg.exclusive = true) (creator : Nat → Bool) (s : Sys)
     (hr : Reach cfg [] none creator s) :
     s.inits.length ≤ 1 ∧ s.files.length ≤ 1 ∧
-    (∀ m, resolve s = some m → AllOn s m.uuid) ∧ (resolve s = none → ∀ a v, s.pc a ≠ .done (some v)) := by sorry
+    (∀ m, resolve s = some m → AllOn s m.uuid) ∧ (resolve s = none → ∀ a v, s.pc a ≠ .done (some v)) := by
+  rcases (exInv_reach cfg hx creator s hr).2 with ⟨hf, hh, hi, hp⟩ | ⟨f, hf, hh, hi, hp⟩ | ⟨f, w, hf, hh, hi, hp⟩
+  · have hres := resolve_nil s hf hh
+    refine ⟨by rw [hi]; exact Nat.zero_le _, by rw [hf]; exact Nat.zero_le _, ?_, ?_⟩
+    · intro m hm; rw [hres] at hm; cases hm
+    · intro _ a v hv
+      have := hp a
+      rw [hv] at this
+      exact this
+  · have hres := resolve_single_none s f hf hh
+    refine ⟨by rw [hi]; exact Nat.zero_le _, by rw [hf]; exact Nat.le_refl _, ?_, ?_⟩
+    · intro m hm a v hv
+      rw [hres] at hm; cases hm
+      have := hp a
+      rw [hv] at this
+      exact this
+    · intro hn; rw [hres] at hn; cases hn
+  · have hres := resolve_single_some s f hf hh
+    refine ⟨by rw [hi]; exact Nat.le_refl _, by rw [hf]; exact Nat.le_refl _, ?_, ?_⟩
+    · intro m hm a v hv
+      rw [hres] at hm; cases hm
+      have := hp a
+      rw [hv] at this
+      exact this
+    · intro hn; rw [hres] at hn; cases hn
+
+/-! ### one_init_cas -/
+
+theorem step_hint_cas (cfg : Cfg) (hc : cfg.cas = true) (s s' : Sys) (a : Nat) (act : Act)
+    (hs : step cfg s a act = some s') :
+    (s'.hint = s.hint ∧ s'.inits = s.inits) ∨ (s.hint = none ∧ ∃ f, s'.hint = some f ∧ s'.inits = a :: s.inits) := by
+  cases act <;> simp only [step, hc, ↓reduceIte] at hs
+  all_goals repeat' (split at hs)
+  all_goals first
+    | (cases hs; done)
+    | (cases hs; refine Or.inl ⟨?_, ?_⟩ <;> (simp; done))
+    | (cases hs; refine Or.inr ⟨?_, _, rfl, rfl⟩; assumption)
+
+def CasInv (s : Sys) : Prop := (s.hint = none ∧ s.inits = []) ∨ (∃ h w, s.hint = some h ∧ s.inits = [w])
+
+theorem casInv_reach (cfg : Cfg) (hc : cfg.cas = true) (creator : Nat → Bool) (s : Sys)
+    (hr : Reach cfg [] none creator s) : CasInv s := by
+  induction hr with
+  | init => exact Or.inl ⟨rfl, rfl⟩
+  | @step s1 s2 a act _ hs ih =>
+      rcases step_hint_cas cfg hc _ _ a act hs with ⟨h1, h2⟩ | ⟨h1, f, h2, h3⟩
+      · unfold CasInv; rw [h1, h2]; exact ih
+      · rcases ih with ⟨_, hi⟩ | ⟨h, w, hh, _⟩
+        · exact Or.inr ⟨f, a, h2, by rw [h3, hi]⟩
+        · rw [hh] at h1; cases h1
 
 /-- from nothing, on a CAS backend with NOTHING assumed about the lock: the create-if-absent pointer write lets at most
 one initialisation take effect, and the pointer, once set, never changes -/
 theorem one_init_cas' (cfg : Cfg) (hc : cfg.cas = true) (creator : Nat → Bool) (s s' : Sys) (a : Nat) (act : Act)
     (hr : Reach cfg [] none creator s) (hs : step cfg s a act = some s') :
-    s.inits.length ≤ 1 ∧ (s.inits.length = 1 ↔ s.hint.isSome) ∧ (s.hint.isSome → s'.hint = s.hint) := by sorry
+    s.inits.length ≤ 1 ∧ (s.inits.length = 1 ↔ s.hint.isSome) ∧ (s.hint.isSome → s'.hint = s.hint) := by
+  have inv : CasInv s := casInv_reach cfg hc creator s hr
+  refine ⟨?_, ?_, ?_⟩
+  · rcases inv with ⟨_, hi⟩ | ⟨h, w, _, hi⟩ <;> rw [hi] <;> simp
+  · rcases inv with ⟨hh, hi⟩ | ⟨h, w, hh, hi⟩ <;> rw [hi, hh] <;> simp
+  · intro hsome
+    rcases step_hint_cas cfg hc _ _ a act hs with ⟨h1, _⟩ | ⟨h1, _⟩
+    · exact h1
+    · rw [h1] at hsome; cases hsome
 
 end DSV.Create
